@@ -140,6 +140,11 @@ func Login() error {
 	cgf.connMutex.Lock()
 	defer cgf.connMutex.Unlock()
 
+	return loginLocked()
+}
+
+// loginLocked (re-)establishes the FTP control connection; the caller holds cgf.connMutex
+func loginLocked() error {
 	if cgf.conn != nil {
 		ping_err := cgf.conn.NoOp()
 		if ping_err == nil {
@@ -174,8 +179,13 @@ func SendCDR(supi string) error {
 		return nil
 	}
 
+	// the control connection is shared by all charging requests: it is tested, re-established and used by one
+	// request at a time
+	cgf.connMutex.Lock()
+	defer cgf.connMutex.Unlock()
+
 	if cgf.conn == nil {
-		err := Login()
+		err := loginLocked()
 		if err != nil {
 			return err
 		}
@@ -185,14 +195,12 @@ func SendCDR(supi string) error {
 	ping_err := cgf.conn.NoOp()
 	if ping_err != nil {
 		logger.CgfLog.Infof("Faile to ping FTP server, relogin...")
-		err := Login()
+		err := loginLocked()
 		if err != nil {
 			return err
 		}
 		logger.CgfLog.Infof("FTP Re-Login Success")
 	}
-	cgf.connMutex.Lock()
-	defer cgf.connMutex.Unlock()
 
 	fileName := supi + ".cdr"
 	cdrByte, err := os.ReadFile("/tmp/" + fileName)
